@@ -33,14 +33,15 @@ func (p *Probes) inc(name string) {
 
 // Env is the state of one run.
 type Env struct {
-	Sim         *simrt.Sim
-	starveArmed bool
-	starveBase  int
-	rootLib     map[int]bool // library tasks alive when setup returned: the root's own goroutines
-	Prog        *Program
-	Log         *Log
-	Model       *Model
-	Prop        *Property
+	Sim              *simrt.Sim
+	rootCloseInvoked bool
+	starveArmed      bool
+	starveBase       int
+	rootLib          map[int]bool // library tasks alive when setup returned: the root's own goroutines
+	Prog             *Program
+	Log              *Log
+	Model            *Model
+	Prop             *Property
 
 	Root       tally.Scope
 	RootCloser io.Closer
@@ -68,6 +69,12 @@ func (env *Env) setRootClosed() { env.rootClosed = true }
 
 //go:norace
 func (env *Env) isRootClosed() bool { return env.rootClosed }
+
+//go:norace
+func (env *Env) setRootCloseInvoked() { env.rootCloseInvoked = true }
+
+//go:norace
+func (env *Env) isRootCloseInvoked() bool { return env.rootCloseInvoked }
 
 //go:norace
 func (env *Env) noteSlow() { env.Probes.SlowCalls++ }
